@@ -29,9 +29,11 @@ EXTEND = {
                  "hand-written single patterns ($, %, quotes, backslashes, ';', leading dashes, option look-alikes, '=' and ',', line breaks, Unicode spaces, noncharacters), "
                  "syntax-relevant ASCII and wide characters as one-character patterns (quick: 51 of the 62 in lists of 12; thorough: each of the 62 alone, plus all 127 non-NUL ASCII characters in lists of 8), "
                  "ordered pairs over the 43 syntax-relevant ASCII characters in lists of 16 (quick: 48 pairs; thorough: all 1849), seeded random lists of 0-6 random patterns "
-                 "(quick 8, thorough 300; x5 under the search budget). Quick: about 50 runs; thorough: about 630. For every run the installed "
-                 "/etc/systemd/system/totalmapper@.service must equal, byte for byte, the extracted model's build_service_text of exactly the command line's patterns in order, and the extracted "
-                 "c17_check must accept it under both environments (clause C17.cli_unit)."),
+                 "(quick 8, thorough 300; x5 under the search budget). Quick: about 50 runs; thorough: about 630. For every run the unit it installs "
+                 "(whatever *.service file the run creates or rewrites below /etc/systemd/system: /etc/systemd/system/totalmapper@.service if it is among them, else the only one; evidence key "
+                 "cli_installed_unit_files; a run that installs none on an accepted argv is a violation) must pass, for exactly the command line's patterns in order, the escape engine's two extracted "
+                 "judgements: text_class_ok (exactly one ExecStart= in [Service], whose value ends byte for byte with the model's text from the exclude region on, after an intact prefix; the other "
+                 "lines of the unit are not compared) and c17_check under both environments (clause C17.cli_unit)."),
         "explanation": ("The cli engine adds what no library-level check sees: clap's definition of --exclude (repeatable, one value each), the collection of the values in main.rs, "
                         "their forwarding to udev_utils::add_systemd_service and write_systemd_service's writing of build_service_text to the fixed path (clause C17.cli_unit)."),
     },
@@ -42,7 +44,8 @@ EXTEND = {
                  "the JSON files of /repo/working/syntax-examples, the README's JSON blocks, three hand-written files (aliases, rows, Special repeat with chords of 0-2 keys and "
                  "delay/interval -5, -1, 0, 1, 65536, 2^31-1, -2^31, absorbing lists, an empty layout) and seeded shorthand layouts (quick 22, thorough 60; aliases with several definitions, rows with letters, "
                  "every repeat form, absorbing, files with spaces/quotes/%/$/non-ASCII in their names) as --layout-file; every source is used at least once, some runs start with a "
-                 "stale 500 kB /etc/totalmapper.json, unit file and udev rule. The installed /etc/totalmapper.json is loaded with the real layout_loading::load_layout_from_file (tm-harness cli-load) and "
+                 "stale 500 kB /etc/totalmapper.json, unit file and udev rule. The installed layout file (the path the installed unit's --layout-file argument names, /etc/totalmapper.json; evidence key cli_installed_layout_files) "
+                 "is loaded with the real layout_loading::load_layout_from_file (tm-harness cli-load) and "
                  "must equal, mapping by mapping, the layout the command line names (the same function on F, or DEFAULT_LAYOUTS[N] -> serde_json::from_str -> parse_layout_from_json -> convert) "
                  "(clause C15.cli_saved_file). Both sides use the working tree's loader: this clause sees the save path and the glue, not the loader."),
         "explanation": ("The cli engine adds main.rs's load_layout (which source is loaded for --default-layout / --layout-file) and udev_utils::write_layout_to_global_config "
@@ -51,19 +54,27 @@ EXTEND = {
     "C16": {
         "engines": ["cli"],
         "trusted": [CLI_TRUST + " For C16 the namespace is the one of `tm-harness listing-ns` (tmpfs over /sys/devices and /dev, a file bound over /proc/bus/input/devices; the "
-                    "selected 'devices' are plain files, so opening them as evdev fails at once; every child runs under `timeout 20`)."],
-        "rule": ("cli engine: namespace scenarios of the listing generator (quick 8, thorough 200; x5 under the search budget) whose exclude patterns are replaced by 1-3 patterns of which at least one "
+                    "selected 'devices' are plain files, so opening them as evdev fails at once; every child runs under `timeout 20`). The judgement rests on inotify's IN_OPEN events for "
+                    "that directory and on the reading of do_remapping_loop_these_devices / do_remapping_loop_auto_all_devices stated in the rule (open in order, stop at the first failure / open all): "
+                    "an implementation that opened devices in another order would still pass as long as it opens the first selected node and only selected ones."],
+        "rule": ("cli engine: namespace scenarios of the listing generator (quick 6, thorough 120; x5 under the search budget) whose exclude patterns are replaced by 1-3 patterns of which at least one "
                  "is likely to match a keyboard of the scenario ('*', '*eyboard*', a keyboard's name or a prefix of it) plus device names, suffix globs and patterns with spaces/quotes/$/%; "
-                 "the real binary is run as `list_keyboards`, `remap --default-layout caps-for-movement --all-keyboards --verbose --exclude P...` and `remap ... --only-if-keyboard --verbose "
-                 "--exclude P... --dev-file D...`; the devices it prints as listed, '(excluded)', 'Skipping ...' and the 'Remapping N devices.' count must equal the extracted listing model's "
-                 "selection for the same fabricated system, with WildMatch, the /sys walk and canonicalize answered by the recorded oracles, and the extracted spec_all / spec_dev_file / "
-                 "no_virtual_listed checkers must accept them (clause C16.cli_excludes). On the same scenarios, in a second fabricated copy of the system in which every node named by /sys exists, "
-                 "the three ways of naming devices are run with the same patterns (spelled `--exclude P` or `--exclude=P`, a seeded builtin layout): --all-keyboards, "
-                 "--dev-file <every node> --only-if-keyboard, and --auto-all-keyboards (never returns: killed with SIGKILL once its first round is printed and stderr went quiet for 0.3 s, "
-                 "3 s at most). Required (clause C16.cli_modes_agree): --all-keyboards and the first round of --auto-all-keyboards print the same devices with the same '(excluded)' flags "
-                 "(or both fail to list); the --all-keyboards listing equals the one of the listing-ns run of the same command (which is the one compared with the model); and, when no /sys "
-                 "lookup of the scenario fails and every entry has its own sysfs path (the guards of C16_selection_same; 127 of 200 thorough scenarios), the nodes not reported as "
-                 "'Skipping ...' by --dev-file are exactly the non-excluded nodes of --all-keyboards."),
+                 "every scenario is run once per entry of its device list (quick: at most 6), that entry rotated to the front of the fabricated /proc/bus/input/devices, with --dev-file "
+                 "arguments = the node of every entry in the same order followed by the scenario's own odd arguments (symlinks, '//', missing nodes). The real binary is run as `list_keyboards`, "
+                 "`remap --default-layout caps-for-movement --all-keyboards --verbose --exclude P...`, `remap ... --only-if-keyboard --verbose --exclude P... --dev-file D...` and, once per "
+                 "scenario, `remap ... --auto-all-keyboards ...` (never returns: SIGKILL once the process sleeps and nothing was opened for 0.25 s, 3 s at most; about 0.3 s). PRIMARY observation: "
+                 "which fabricated nodes of /dev/input the run OPENS (inotify IN_OPEN on the directory, set up after the nodes exist; nothing else opens them: list_keyboards and "
+                 "filter_devices_verbose only read /proc and /sys and canonicalize). do_remapping_loop_these_devices opens the selected nodes in order and stops at the first failure and a "
+                 "fabricated node is a plain file, so --all-keyboards / --dev-file open exactly the first selected node that exists (nothing if nothing is selected) and the auto mode opens every "
+                 "selected node. Judged against the extracted listing model's selection for the same (rotated) text, patterns and recorded oracles (WildMatch, /sys walk, canonicalize): only "
+                 "selected nodes may be opened and the first selected one must be (auto mode: exactly the selected existing nodes); the extracted spec_all / spec_dev_file / no_virtual_listed "
+                 "are applied to the opens in the same way (clause C16.cli_excludes). SECONDARY observation: the verbose log (' * \"path\" (excluded)' lists, 'Remapping N devices.', "
+                 "'Skipping ...'), used for the full listing comparison only if in EVERY scenario of the run it has the expected shape (header, nothing but list lines, a count equal to the entries "
+                 "it reports as selected) and agrees with the opens; otherwise it is counted (cli_verbose_log_unparsed, cli_verbose_log_contradicting_the_opens) and every log-based judgement "
+                 "is dropped - the property says nothing about log text. `list_keyboards` output is compared only when every line has the shape '<name>: /dev/...'. "
+                 "Clause C16.cli_modes_agree, on the same observations: the union over the rotations of what --all-keyboards opens equals what --auto-all-keyboards opens (subset when the "
+                 "rotations were capped), and so does the union for --dev-file when no /sys lookup of the scenario fails and every entry has its own sysfs path (the guards of "
+                 "C16_selection_same; 82 of 120 thorough scenarios); secondarily, the two logs flag the same devices."),
         "explanation": ("The cli engine adds the dispatch of `remap` in main.rs (the --exclude / --dev-file / --only-if-keyboard / --all-keyboards definitions and their forwarding to "
                         "do_remapping_loop_all_devices / do_remapping_loop_multiple_devices / do_remapping_loop_auto_all_devices) in the quick tier as well (clause C16.cli_excludes), "
                         "and the statement's 'the answer is the same whichever way devices are named' on the real binary for all three ways (clause C16.cli_modes_agree)."),
